@@ -3,6 +3,7 @@ Line-protocol driver for M-Schema (SCHEMA_PROTOCOL.md). Core-only (lean_exe sche
 -/
 import ThriftVerif.Schema.Text
 import ThriftVerif.Schema.WireEq
+import ThriftVerif.Schema.GoType
 
 open ThriftVerif.Wire ThriftVerif.Schema
 
@@ -119,6 +120,10 @@ def step (env : Env) (line : String) : Env × String :=
   | "zap" :: rest =>
     match parseTG rest with
     | some (t, g, []) => (env, " ".intercalate ("ok" :: sortStrings (visible env true fuel t g).eraseDups))
+    | _ => (env, "bad-op")
+  | "gotype" :: rest =>
+    match parseTy (rest.length + 2) rest with
+    | some (t, [req]) => (env, "ok " ++ formatType (buildType t (req == "1")))
     | _ => (env, "bad-op")
   | _ => (env, "bad-op")
 
